@@ -332,8 +332,29 @@ pub fn ring_ff5_gcd(s: &mut Src) -> R {
     Ok(())
 }
 
+/// bounded stand-in on the real machine type: full-range dividend, divisor from a fixed list of
+/// constants (so that CBMC's divider has a constant operand).  Complete in `a`, bounded in `b`.
+macro_rules! div_round_const_harness {
+    ($name:ident, $t:ident, $w:ty, [$($b:expr),*]) => {
+        pub fn $name(s: &mut Src) -> R {
+            let a: $t = s.$t();
+            pre!(a != <$t>::MIN);
+            reach!();
+            $( {
+                let b: $t = $b;
+                let q = a.div_round(&b);
+                let r = (a as $w) - (q as $w) * (b as $w);
+                ob!(2 * r.abs() <= (b as $w).abs(), "div_round::nearest-integer-quotient(constant-divisor)");
+            } )*
+            Ok(())
+        }
+    };
+}
+div_round_const_harness!(ring_div_round_const_i64, i64, i128, [1, -1, 2, -2, 3, -3, 5, 7, -7, 10, 16, -1000003, 4294967311]);
+div_round_const_harness!(ring_div_round_const_i32, i32, i64, [1, -1, 2, -2, 3, -3, 5, 7, -7, 10, 16, -1000003, 46337]);
+
 crate::harness_table!(RING:
-    ring_div_round_i32, ring_div_round_i64, ring_div_round_i128,
+    ring_div_round_i32, ring_div_round_i64, ring_div_round_i128, ring_div_round_const_i64, ring_div_round_const_i32,
     ring_int_units_i32, ring_int_divides_i32, ring_int_units_i64, ring_int_divides_i64,
     ring_ratio_cmp_int_i64, ring_ratio_cmp_small_i64 [unwind 12],
     ring_ff2p, ring_ff3, ring_ff5, ring_ff7, ring_ff46337,
